@@ -374,10 +374,948 @@ func mutate(doc []byte, f func(m map[string]any)) []byte {
 
 func sum(b []byte) string { h := sha256.Sum256(b); return fmt.Sprintf("%x", h[:6]) }
 
-var _ = rand.Int
-var _ = sort.Strings
-var _ = strings.Join
-var _ resolver.RelationType
 
 func didnutsResolver(e *env) didnuts.Resolver { return didnuts.Resolver{Store: e.store} }
-var _ *testing.T
+
+// ---- shadow: what the harness knows was accepted ---------------------------------------------------------------
+
+type class int
+
+const (
+	mustAccept class = iota
+	mustReject
+	unspecified
+)
+
+func (c class) String() string { return [...]string{"MUST-ACCEPT", "MUST-REJECT", "UNSPECIFIED"}[c] }
+
+// sver is one accepted (transaction, document) of a DID.
+type sver struct {
+	ref      hash.SHA256Hash
+	prevs    []hash.SHA256Hash
+	capInv   map[string]bool // RFC7638 thumbprints (hex) of the keys under capabilityInvocation
+	vmIDs    map[string]bool // ids under verificationMethod
+	ctrl     []string
+	deact    bool // document without controllers and without capabilityInvocation keys
+	embedded bool // arrived in a transaction with an embedded key
+	n        int  // position among the accepted versions of its DID
+	co       []*sver // versions that were heads together with this one at some time: the store resolves the transaction of one
+	// branch of a conflict to the merged version, so the text's "version it succeeds" is the merge there
+}
+
+type sdid struct {
+	id   string
+	vers []*sver
+}
+
+// heads are the accepted versions no other accepted version of the DID names in its prevs: the source transactions of
+// the current latest version (several = conflicted).
+func (d *sdid) heads() []*sver {
+	if d == nil {
+		return nil
+	}
+	refd := map[hash.SHA256Hash]bool{}
+	for _, v := range d.vers {
+		for _, p := range v.prevs {
+			refd[p] = true
+		}
+	}
+	var out []*sver
+	for _, v := range d.vers {
+		if !refd[v.ref] {
+			out = append(out, v)
+		}
+	}
+	return out
+}
+
+func (d *sdid) isHead(v *sver) bool {
+	for _, h := range d.heads() {
+		if h == v {
+			return true
+		}
+	}
+	return false
+}
+
+func (d *sdid) deactivated() bool {
+	if d == nil {
+		return false
+	}
+	for _, v := range d.vers {
+		if v.deact {
+			return true
+		}
+	}
+	return false
+}
+
+func (d *sdid) byRef(ref hash.SHA256Hash) *sver {
+	if d == nil {
+		return nil
+	}
+	for _, v := range d.vers {
+		if v.ref.Equals(ref) {
+			return v
+		}
+	}
+	return nil
+}
+
+func newSver(doc *did.Document, ref hash.SHA256Hash, prevs []hash.SHA256Hash, embedded bool) *sver {
+	v := &sver{ref: ref, prevs: prevs, capInv: map[string]bool{}, vmIDs: map[string]bool{}, embedded: embedded}
+	for _, c := range doc.CapabilityInvocation {
+		if j, err := c.JWK(); err == nil && j != nil {
+			v.capInv[thumbOfJWK(j)] = true
+		}
+	}
+	for _, m := range doc.VerificationMethod {
+		v.vmIDs[m.ID.String()] = true
+	}
+	for _, c := range doc.Controller {
+		v.ctrl = append(v.ctrl, c.String())
+	}
+	v.deact = len(doc.Controller) == 0 && len(doc.CapabilityInvocation) == 0
+	return v
+}
+
+// ---- one (transaction, document) pair -----------------------------------------------------------------------------
+
+type pair struct {
+	kind     string  // stable label of what the generator intends (e.g. "update/removed-key")
+	target   did.DID // the DID the document claims
+	payload  []byte
+	signer   *key
+	kidOwner *did.DID // nil: the key is embedded in the transaction (creation style)
+	kidKey   *key     // key whose id is put in the kid header (default: signer)
+	prevs    []dag.Transaction
+	invalid  string // the validator rule the document violates ("" = well-formed as far as the generator knows)
+	unspec   string // generator-declared unspecified class for well-formedness questions the text does not decide
+}
+
+// analysis is what the property text says about a pair, given the shadow.
+type analysis struct {
+	cls      class
+	reason   string
+	violKey  string // key of the violation if the pair is accepted although cls == mustReject
+	pattern  string // roles of the prevs, in order
+	unspecOn string // class to count under Unspecified when accepted (or when observed at all for cls == unspecified)
+}
+
+type outcome struct {
+	accepted  bool
+	layer     string // "dag" | "ambassador" | "accepted"
+	err       string
+	panicked  string
+	delivered int
+}
+
+type caseResult struct {
+	scenario string
+	kind     string
+	pattern  string
+	an       analysis
+	out      outcome
+	snapDiff []string
+	snapN    int
+	viol     []violation
+	unspec   []string
+	incon    []string
+	sample   map[string]any
+	store1   bool // the store held at least one accepted version when the pair arrived
+	invEval  bool
+}
+
+type violation struct {
+	key, what string
+	witness   any
+}
+
+type scenario struct {
+	name     string
+	e        *env
+	rnd      *rand.Rand
+	dids     map[string]*sdid
+	order    []string // DIDs in the scenario (existing or only claimed), for snapshots
+	refs     []hash.SHA256Hash
+	sigts    []time.Time
+	hashes   map[hash.SHA256Hash]bool
+	kids     map[string]bool
+	n        int
+	results  []*caseResult
+	log      []string
+	accepted int
+	admitted map[hash.SHA256Hash]bool // transactions the DAG admitted
+	aborted  string
+}
+
+func newScenario(r *ev.Run, name string, rnd *rand.Rand) *scenario {
+	return &scenario{name: name, e: newEnv(r), rnd: rnd, dids: map[string]*sdid{}, hashes: map[hash.SHA256Hash]bool{}, kids: map[string]bool{}, admitted: map[hash.SHA256Hash]bool{}}
+}
+
+func (s *scenario) noteDID(id string) {
+	for _, o := range s.order {
+		if o == id {
+			return
+		}
+	}
+	s.order = append(s.order, id)
+}
+
+// authorises: is key k (thumbprint) listed for capability invocation by a controller of version v of DID d, the
+// controllers' documents taken as currently accepted (not deactivated, current heads).
+func (s *scenario) authorises(d *sdid, v *sver, k string) bool {
+	if len(v.ctrl) == 0 {
+		return v.capInv[k]
+	}
+	for _, c := range v.ctrl {
+		if c == d.id {
+			if v.capInv[k] {
+				return true
+			}
+			continue
+		}
+		cd := s.dids[c]
+		if cd == nil || cd.deactivated() {
+			continue
+		}
+		for _, h := range cd.heads() {
+			if h.capInv[k] {
+				return true
+			}
+		}
+	}
+	return false
+}
+
+// refAuthorises: does the version the store could mean by a reference to v (v itself or a merge v was part of) authorise k.
+func (s *scenario) refAuthorises(d *sdid, v *sver, k string) (bool, bool) {
+	if s.authorises(d, v, k) {
+		return true, false
+	}
+	for _, c := range v.co {
+		if s.authorises(d, c, k) {
+			return true, true
+		}
+	}
+	return false, false
+}
+
+func containsRef(l []hash.SHA256Hash, r hash.SHA256Hash) bool {
+	for _, x := range l {
+		if x.Equals(r) {
+			return true
+		}
+	}
+	return false
+}
+
+func (s *scenario) prevPattern(p *pair) string {
+	var parts []string
+	for _, t := range p.prevs {
+		role := "other"
+		if t.Ref().Equals(s.e.root.Ref()) {
+			role = "root"
+		} else if containsRef(s.refs, t.Ref()) {
+			role = "rejected-tx"
+		}
+		for _, id := range s.order {
+			d := s.dids[id]
+			if v := d.byRef(t.Ref()); v != nil {
+				who := "other-did"
+				if id == p.target.String() {
+					who = "own"
+				} else if p.kidOwner != nil && id == p.kidOwner.String() {
+					who = "signer-did"
+				}
+				age := "old"
+				if d.isHead(v) {
+					age = "latest"
+				}
+				if v.deact {
+					age += "+deactivation"
+				}
+				role = who + ":" + age
+			}
+		}
+		parts = append(parts, role)
+	}
+	return strings.Join(parts, ",")
+}
+
+// analyse classifies a pair from the property text.
+func (s *scenario) analyse(p *pair) analysis {
+	a := analysis{pattern: s.prevPattern(p)}
+	if p.invalid != "" {
+		a.cls, a.reason = mustReject, "document violates: "+p.invalid
+		a.violKey = "C09/invalid-document-accepted/" + p.invalid
+		if strings.HasPrefix(p.invalid, "embedded-method-") {
+			a.violKey = "C09/validator/embedded-relationship-method"
+		}
+		return a
+	}
+	if p.unspec != "" {
+		a.cls, a.reason, a.unspecOn = unspecified, p.unspec, p.unspec
+		return a
+	}
+	d := s.dids[p.target.String()]
+	k := p.signer.raw
+	if p.kidOwner == nil {
+		switch {
+		case p.target.ID != p.signer.thumb:
+			a.cls, a.reason = mustReject, "creation: DID is not the thumbprint of the embedded key"
+			a.violKey = "C09/create-accepted/" + strings.TrimPrefix(p.kind, "create/")
+		case d == nil || len(d.vers) == 0:
+			a.cls, a.reason = mustAccept, "creation: DID equals the thumbprint of the embedded key"
+		default:
+			a.cls, a.reason, a.unspecOn = unspecified, "transaction with the DID's embedded creation key for a DID that already exists", "embedded-key-tx-for-existing-did"
+		}
+		return a
+	}
+	generic := "C09/unauthorised-update-accepted/" + strings.TrimPrefix(p.kind, "update/")
+	if d == nil || len(d.vers) == 0 {
+		a.cls, a.reason, a.violKey = mustReject, "update of a DID without any version to succeed", "C09/update-accepted/no-version-to-succeed"
+		return a
+	}
+	heads := d.heads()
+	prevRefs := make([]hash.SHA256Hash, len(p.prevs))
+	for i, t := range p.prevs {
+		prevRefs[i] = t.Ref()
+	}
+	covers := true
+	for _, h := range heads {
+		if !containsRef(prevRefs, h.ref) {
+			covers = false
+		}
+	}
+	var refd []*sver
+	firstHeadPos, firstOldAuthPos := -1, -1
+	for i, r := range prevRefs {
+		if v := d.byRef(r); v != nil {
+			refd = append(refd, v)
+			if d.isHead(v) {
+				if firstHeadPos < 0 {
+					firstHeadPos = i
+				}
+			} else if ok, _ := s.refAuthorises(d, v, k); firstOldAuthPos < 0 && ok {
+				firstOldAuthPos = i
+			}
+		}
+	}
+	authHead := false
+	for _, h := range heads {
+		if s.authorises(d, h, k) {
+			authHead = true
+		}
+	}
+	if len(refd) == 0 {
+		anyVer := false
+		for _, v := range d.vers {
+			if ok, _ := s.refAuthorises(d, v, k); ok {
+				anyVer = true
+			}
+		}
+		if !anyVer {
+			a.cls, a.reason, a.violKey = mustReject, "no prev names a version of the DID and no version of the DID authorises the signer", generic
+		} else {
+			a.cls, a.reason, a.unspecOn = unspecified, "no prev names a version of the DID (legacy resolution)", "no-prev-resolves"
+		}
+		return a
+	}
+	if covers {
+		if authHead {
+			if why := s.unclean(p, d, heads, refd, prevRefs); why != "" {
+				a.cls, a.reason, a.unspecOn = unspecified, "signer authorised by the latest version; "+why, "authorised-"+strings.SplitN(why, ":", 2)[0]
+			} else {
+				a.cls, a.reason = mustAccept, "signer listed for capability invocation by a controller of the latest version, which the prevs name"
+			}
+			return a
+		}
+		a.cls, a.reason = mustReject, "prevs name the latest version and the signer is not listed for capability invocation by any of its controllers"
+		a.violKey = generic
+		// which stale version could have let it through
+		if firstOldAuthPos >= 0 {
+			if firstOldAuthPos < firstHeadPos {
+				a.violKey = "C09/removed-key/prevs-old-version-first"
+			} else {
+				a.violKey = "C09/removed-key/prevs-old-version-later"
+			}
+			return a
+		}
+		for _, h := range heads {
+			for _, c := range h.ctrl {
+				cd := s.dids[c]
+				if c == d.id || cd == nil {
+					continue
+				}
+				stale, newer := false, false
+				for _, v := range cd.vers {
+					if !containsRef(prevRefs, v.ref) {
+						continue
+					}
+					if v.capInv[k] && (cd.deactivated() || !cd.isHead(v)) {
+						stale = true
+					} else if !v.capInv[k] {
+						newer = true
+					}
+				}
+				if stale {
+					what := "removed-key"
+					if cd.deactivated() {
+						what = "deactivated-controller"
+					}
+					a.violKey = "C09/" + what + "/prevs-controller-old-version"
+					if newer {
+						a.violKey = "C09/" + what + "/prevs-controller-old-and-new-version"
+					}
+					return a
+				}
+			}
+		}
+		return a
+	}
+	// fork: the prevs do not name all source transactions of the latest version
+	for _, v := range refd {
+		if ok, merged := s.refAuthorises(d, v, k); ok {
+			a.cls, a.reason, a.unspecOn = unspecified, "forks from an older version that authorises the signer", "fork-from-old-version"
+			if merged {
+				a.reason, a.unspecOn = "names one branch of a conflict; another branch of that merge authorises the signer", "branch-of-conflicted-version"
+			}
+			return a
+		}
+	}
+	a.cls, a.reason, a.violKey = mustReject, "forks from versions none of which authorises the signer", generic
+	return a
+}
+
+// unclean says why an authorised update is not the plain case the harness demands acceptance of ("" = plain).
+func (s *scenario) unclean(p *pair, d *sdid, heads, refd []*sver, prevRefs []hash.SHA256Hash) string {
+	if len(heads) != 1 {
+		return "conflicted: the latest version is a merge"
+	}
+	if d.deactivated() {
+		return "deactivated: the DID has been deactivated"
+	}
+	if len(refd) != 1 {
+		return "old-versions-named: prevs also name older versions of the DID"
+	}
+	kk := p.signer
+	if p.kidKey != nil {
+		kk = p.kidKey
+	}
+	if kk != p.signer {
+		return "kid-mismatch: kid names another key than the one that signed"
+	}
+	kid := kk.kid(*p.kidOwner)
+	if p.kidOwner.String() == d.id {
+		if !heads[0].vmIDs[kid] {
+			return "kid-unresolvable: the kid is not a verification method of the latest version"
+		}
+		return ""
+	}
+	od := s.dids[p.kidOwner.String()]
+	if od == nil || od.deactivated() {
+		return "kid-unresolvable: signer DID unknown or deactivated"
+	}
+	oh := od.heads()
+	if len(oh) != 1 {
+		return "conflicted: the signer DID is conflicted"
+	}
+	n := 0
+	for _, v := range od.vers {
+		if containsRef(prevRefs, v.ref) {
+			n++
+		}
+	}
+	if n != 1 || !containsRef(prevRefs, oh[0].ref) {
+		return "controller-version: prevs do not name exactly the latest version of the signer DID"
+	}
+	if !oh[0].vmIDs[kid] {
+		return "kid-unresolvable: the kid is not a verification method of the signer DID"
+	}
+	for _, c := range oh[0].ctrl {
+		if c != od.id {
+			return "controller-chain: the signer DID has a controller of its own"
+		}
+	}
+	return ""
+}
+
+// ---- snapshots --------------------------------------------------------------------------------------------------------
+
+var relTypes = []struct {
+	name string
+	t    resolver.RelationType
+}{{"authentication", resolver.Authentication}, {"assertionMethod", resolver.AssertionMethod}, {"keyAgreement", resolver.KeyAgreement},
+	{"capabilityInvocation", resolver.CapabilityInvocation}, {"capabilityDelegation", resolver.CapabilityDelegation}}
+
+func fmtMeta(md *resolver.DocumentMetadata) string {
+	if md == nil {
+		return "-"
+	}
+	src := make([]string, len(md.SourceTransactions))
+	for i, t := range md.SourceTransactions {
+		src[i] = t.String()[:10]
+	}
+	sort.Strings(src)
+	upd, prev := "-", "-"
+	if md.Updated != nil {
+		upd = fmt.Sprint(md.Updated.Unix())
+	}
+	if md.PreviousHash != nil {
+		prev = md.PreviousHash.String()[:10]
+	}
+	return fmt.Sprintf("hash=%s prev=%s created=%d updated=%s txs=%v deactivated=%v", md.Hash.String()[:10], prev, md.Created.Unix(), upd, src, md.Deactivated)
+}
+
+func descDoc(doc *did.Document) string {
+	var ci []string
+	for _, c := range doc.CapabilityInvocation {
+		ci = append(ci, c.ID.String())
+	}
+	sort.Strings(ci)
+	b, _ := json.Marshal(doc)
+	return fmt.Sprintf("doc=%s capInv=%v controllers=%v", sum(b), ci, doc.Controller)
+}
+
+func pubThumb(pk any) string {
+	j, err := jwk.FromRaw(pk)
+	if err != nil {
+		return "?"
+	}
+	return thumbOfJWK(j)[:12]
+}
+
+// snap records everything resolvable for every DID of the scenario.
+func (s *scenario) snap() map[string]string {
+	out := map[string]string{}
+	st := s.e.store
+	nr := didnutsResolver(s.e)
+	put := func(k string, doc *did.Document, md *resolver.DocumentMetadata, err error) {
+		if err != nil {
+			out[k] = "ERR " + err.Error()
+			return
+		}
+		if md != nil {
+			s.hashes[md.Hash] = true
+		}
+		out[k] = descDoc(doc) + " " + fmtMeta(md)
+	}
+	hashes := make([]hash.SHA256Hash, 0, len(s.hashes))
+	for h := range s.hashes {
+		hashes = append(hashes, h)
+	}
+	future := t0.Add(1000 * time.Hour)
+	keyRes := resolver.DIDKeyResolver{Resolver: nr}
+	txKeyStore := dag.SourceTXKeyResolver{Resolver: st}
+	txKeyRes := dag.SourceTXKeyResolver{Resolver: nr}
+	for _, ids := range s.order {
+		id, err := did.ParseDID(ids)
+		if err != nil {
+			continue
+		}
+		doc, md, err := st.Resolve(*id, nil)
+		put(ids+"|store/latest", doc, md, err)
+		doc, md, err = st.Resolve(*id, &resolver.ResolveMetadata{AllowDeactivated: true})
+		put(ids+"|store/latest+deactivated", doc, md, err)
+		doc, md, err = nr.Resolve(*id, nil)
+		put(ids+"|resolver/latest", doc, md, err)
+		doc, md, err = st.Resolve(*id, &resolver.ResolveMetadata{ResolveTime: &future})
+		put(ids+"|store/time=future", doc, md, err)
+		for i := range s.sigts {
+			doc, md, err = st.Resolve(*id, &resolver.ResolveMetadata{ResolveTime: &s.sigts[i]})
+			put(fmt.Sprintf("%s|store/time=%d", ids, s.sigts[i].Unix()), doc, md, err)
+		}
+		for i := range s.refs {
+			doc, md, err = st.Resolve(*id, &resolver.ResolveMetadata{SourceTransaction: &s.refs[i], AllowDeactivated: true})
+			put(ids+"|store/tx="+s.refs[i].String()[:10], doc, md, err)
+			doc, md, err = nr.Resolve(*id, &resolver.ResolveMetadata{SourceTransaction: &s.refs[i]})
+			put(ids+"|resolver/tx="+s.refs[i].String()[:10], doc, md, err)
+		}
+		for i := range hashes {
+			doc, md, err = st.Resolve(*id, &resolver.ResolveMetadata{Hash: &hashes[i], AllowDeactivated: true})
+			put(ids+"|store/hash="+hashes[i].String()[:10], doc, md, err)
+		}
+		for _, rt := range relTypes {
+			kid, pk, err := keyRes.ResolveKey(*id, nil, rt.t)
+			if err != nil {
+				out[ids+"|key/"+rt.name] = "ERR " + err.Error()
+			} else {
+				out[ids+"|key/"+rt.name] = kid + " " + pubThumb(pk)
+			}
+		}
+	}
+	kids := make([]string, 0, len(s.kids))
+	for k := range s.kids {
+		kids = append(kids, k)
+	}
+	sort.Strings(kids)
+	for _, kid := range kids {
+		for _, rt := range relTypes {
+			pk, err := keyRes.ResolveKeyByID(kid, nil, rt.t)
+			if err != nil {
+				out["kid "+kid+"|"+rt.name] = "ERR " + err.Error()
+			} else {
+				out["kid "+kid+"|"+rt.name] = pubThumb(pk)
+			}
+		}
+		for i := range s.refs {
+			pk, err := txKeyStore.ResolvePublicKey(kid, s.refs[i:i+1])
+			if err != nil {
+				out["kid "+kid+"|dag/tx="+s.refs[i].String()[:10]] = "ERR " + err.Error()
+			} else {
+				out["kid "+kid+"|dag/tx="+s.refs[i].String()[:10]] = pubThumb(pk)
+			}
+			pk, err = txKeyRes.ResolvePublicKey(kid, s.refs[i:i+1])
+			if err != nil {
+				out["kid "+kid+"|vdr/tx="+s.refs[i].String()[:10]] = "ERR " + err.Error()
+			} else {
+				out["kid "+kid+"|vdr/tx="+s.refs[i].String()[:10]] = pubThumb(pk)
+			}
+		}
+	}
+	var conflicted []string
+	_ = st.Conflicted(func(doc did.Document, md resolver.DocumentMetadata) error {
+		conflicted = append(conflicted, doc.ID.String()+" "+descDoc(&doc)+" "+fmtMeta(&md))
+		return nil
+	})
+	sort.Strings(conflicted)
+	out["conflicted"] = strings.Join(conflicted, " ; ")
+	cc, err1 := st.ConflictedCount()
+	dc, err2 := st.DocumentCount()
+	out["counts"] = fmt.Sprintf("conflicted=%d(%v) documents=%d(%v)", cc, err1, dc, err2)
+	var all []string
+	_ = st.Iterate(func(doc did.Document, md resolver.DocumentMetadata) error {
+		all = append(all, doc.ID.String()+" "+descDoc(&doc)+" "+fmtMeta(&md))
+		return nil
+	})
+	sort.Strings(all)
+	out["iterate"] = strings.Join(all, " ; ")
+	if len(s.hashes) > len(hashes) {
+		// this pass met version hashes (merges) it did not know: look those up as well
+		return s.snap()
+	}
+	return out
+}
+
+func diffSnap(a, b map[string]string) []string {
+	var d []string
+	for k, v := range a {
+		if w, ok := b[k]; !ok {
+			d = append(d, k+": gone (was "+v+")")
+		} else if w != v {
+			d = append(d, k+": "+v+"  =>  "+w)
+		}
+	}
+	for k, v := range b {
+		if _, ok := a[k]; !ok {
+			d = append(d, k+": new "+v)
+		}
+	}
+	sort.Strings(d)
+	return d
+}
+
+// ---- submitting a pair and judging the outcome ---------------------------------------------------------------------------
+
+func (s *scenario) nextSigt() time.Time {
+	s.n++
+	return t0.Add(time.Duration(s.n) * time.Minute)
+}
+
+// submit sends the pair through the real DAG + ambassador and evaluates the oracle. It returns the transaction and whether it was accepted.
+func (s *scenario) submit(p *pair) (dag.Transaction, bool) {
+	s.noteDID(p.target.String())
+	if p.kidOwner != nil {
+		s.noteDID(p.kidOwner.String())
+	}
+	res := &caseResult{scenario: s.name, kind: p.kind}
+	s.results = append(s.results, res)
+	for _, d := range s.dids {
+		if len(d.vers) > 0 {
+			res.store1 = true
+		}
+	}
+	// the harness' own reading of the document (go-did, not the code under test): which key ids it mentions
+	var parsed *did.Document
+	if doc, err := did.ParseDocument(string(p.payload)); err == nil {
+		parsed = doc
+		for _, m := range doc.VerificationMethod {
+			s.kids[m.ID.String()] = true
+		}
+	} else if p.invalid == "" && p.unspec == "" {
+		res.incon = append(res.incon, "generator produced a document go-did cannot parse without declaring it invalid: "+err.Error())
+	}
+	an := s.analyse(p)
+	res.an, res.pattern = an, an.pattern
+
+	sigt := s.nextSigt()
+	var tx dag.Transaction
+	if p.kidOwner == nil {
+		tx = dagx.NewTx(p.signer.k, true, p.payload, didnuts.DIDDocumentType, sigt, nil, p.prevs...)
+	} else {
+		kk := p.signer
+		if p.kidKey != nil {
+			kk = p.kidKey
+		}
+		kid := kk.kid(*p.kidOwner)
+		s.kids[kid] = true
+		tx = dagx.NewTx(p.signer.signer(kid), false, p.payload, didnuts.DIDDocumentType, sigt, nil, p.prevs...)
+	}
+	s.refs = append(s.refs, tx.Ref())
+	s.sigts = append(s.sigts, sigt)
+	s.hashes[tx.PayloadHash()] = true
+
+	before := s.snap()
+	var dagErr error
+	func() {
+		defer func() {
+			if x := recover(); x != nil {
+				res.out.panicked = fmt.Sprint(x)
+			}
+		}()
+		dagErr = s.e.st.Add(context.Background(), tx, p.payload)
+	}()
+	if dagErr == nil && res.out.panicked == "" {
+		s.admitted[tx.Ref()] = true
+	}
+	s.e.net.mu.Lock()
+	dl := s.e.net.deliveries[tx.Ref()]
+	s.e.net.mu.Unlock()
+	switch {
+	case res.out.panicked != "":
+		res.out.layer = "panic"
+	case dagErr != nil:
+		res.out.layer, res.out.err = "dag", dagErr.Error()
+	case dl == nil:
+		res.out.layer = "not-delivered"
+		res.incon = append(res.incon, "transaction admitted by the DAG but never delivered to the ambassador")
+	case dl.err != nil:
+		res.out.layer, res.out.err, res.out.delivered = "ambassador", dl.err.Error(), dl.called
+	case !dl.finished:
+		res.out.layer, res.out.delivered = "ambassador", dl.called
+		res.out.err = "receiver returned (false, nil)"
+	default:
+		res.out.layer, res.out.accepted, res.out.delivered = "accepted", true, dl.called
+	}
+	var after map[string]string
+	if !res.out.accepted {
+		after = s.snap()
+		res.snapN = len(after)
+	}
+
+	witness := func() map[string]any {
+		w := map[string]any{"scenario": s.name, "history": append([]string{}, s.log...), "kind": p.kind, "class": an.cls.String(), "reason": an.reason,
+			"prevs": an.pattern, "document": string(p.payload), "transaction": string(tx.Data()), "signer_key": p.signer.name,
+			"outcome": res.out.layer, "error": res.out.err}
+		return w
+	}
+	line := fmt.Sprintf("%s [%s] signer=%s prevs=[%s] -> %s", p.kind, an.cls, p.signer.name, an.pattern, res.out.layer)
+	s.log = append(s.log, line)
+
+	if res.out.panicked != "" {
+		res.viol = append(res.viol, violation{"C09/panic/ambassador.handleNetworkEvent", "panic while processing a DID document transaction: " + res.out.panicked, witness()})
+		return tx, false
+	}
+	if !res.out.accepted {
+		// rejected, whatever the class: nothing resolvable may have changed
+		if diff := diffSnap(before, after); len(diff) > 0 {
+			res.snapDiff = diff
+			w := witness()
+			w["snapshot_diff"] = diff
+			res.viol = append(res.viol, violation{"C09/rejected-but-changed/" + kindTail(p.kind), fmt.Sprintf("document rejected at the %s (%s) but what is resolvable changed: %s", res.out.layer, res.out.err, strings.Join(diff[:min(3, len(diff))], " | ")), w})
+		}
+		if an.cls == mustAccept {
+			res.viol = append(res.viol, violation{"C09/must-accept-rejected/" + kindTail(p.kind), fmt.Sprintf("%s rejected at the %s: %s (%s)", p.kind, res.out.layer, res.out.err, an.reason), witness()})
+		}
+		if an.cls == unspecified {
+			res.unspec = append(res.unspec, an.unspecOn+"/rejected")
+		}
+		return tx, false
+	}
+
+	// accepted
+	s.accepted++
+	res.invEval = true
+	d := s.dids[p.target.String()]
+	switch an.cls {
+	case mustReject:
+		w := witness()
+		w["snapshot_diff"] = diffSnap(before, s.snap())
+		res.viol = append(res.viol, violation{an.violKey, fmt.Sprintf("%s accepted and resolvable although: %s (prevs=[%s])", p.kind, an.reason, an.pattern), w})
+	case unspecified:
+		res.unspec = append(res.unspec, an.unspecOn+"/accepted")
+	}
+	if p.kidOwner == nil && p.target.ID != p.signer.thumb {
+		// global invariant for creations, independent of the generator's class
+		res.viol = append(res.viol, violation{"C09/create-accepted/did-not-thumbprint-of-embedded-key", "a creation was accepted whose DID is not the thumbprint of the embedded key", witness()})
+	}
+	// the new version must be resolvable by its transaction
+	ref := tx.Ref()
+	doc, md, err := s.e.store.Resolve(p.target, &resolver.ResolveMetadata{SourceTransaction: &ref, AllowDeactivated: true})
+	if an.cls == mustAccept {
+		ldoc, lmd, lerr := s.e.store.Resolve(p.target, &resolver.ResolveMetadata{AllowDeactivated: true})
+		switch {
+		case err != nil || lerr != nil:
+			res.viol = append(res.viol, violation{"C09/must-accept-not-resolvable/" + kindTail(p.kind), fmt.Sprintf("accepted but not resolvable: by tx: %v, latest: %v", err, lerr), witness()})
+		case !md.Hash.Equals(tx.PayloadHash()) || !lmd.Hash.Equals(tx.PayloadHash()) || len(lmd.SourceTransactions) != 1 || !lmd.SourceTransactions[0].Equals(ref):
+			res.viol = append(res.viol, violation{"C09/must-accept-not-resolvable/" + kindTail(p.kind), fmt.Sprintf("accepted but the DID does not resolve to the new version: by tx %s, latest %s", fmtMeta(md), fmtMeta(lmd)), witness()})
+		default:
+			_, _ = doc, ldoc
+		}
+	}
+	// shadow
+	if parsed == nil {
+		// accepted a document the harness could not parse: keep the shadow going with what the store returns
+		if err == nil {
+			parsed = doc
+		} else {
+			parsed = &did.Document{ID: p.target}
+		}
+	}
+	if d == nil {
+		d = &sdid{id: p.target.String()}
+		s.dids[d.id] = d
+	}
+	prevRefs := make([]hash.SHA256Hash, len(p.prevs))
+	for i, t := range p.prevs {
+		prevRefs[i] = t.Ref()
+	}
+	v := newSver(parsed, ref, prevRefs, p.kidOwner == nil)
+	v.n = len(d.vers)
+	d.vers = append(d.vers, v)
+	if hs := d.heads(); len(hs) > 1 {
+		for _, x := range hs {
+			for _, y := range hs {
+				if x != y {
+					dup := false
+					for _, z := range x.co {
+						dup = dup || z == y
+					}
+					if !dup {
+						x.co = append(x.co, y)
+					}
+				}
+			}
+		}
+	}
+	// self-check of the shadow: the source transactions of the stored latest version are the heads
+	if _, lmd, lerr := s.e.store.Resolve(p.target, &resolver.ResolveMetadata{AllowDeactivated: true}); lerr == nil {
+		want := map[string]bool{}
+		for _, h := range d.heads() {
+			want[h.ref.String()] = true
+		}
+		ok := len(want) == len(lmd.SourceTransactions)
+		for _, t := range lmd.SourceTransactions {
+			if !want[t.String()] {
+				ok = false
+			}
+		}
+		if !ok {
+			res.incon = append(res.incon, fmt.Sprintf("shadow and store disagree on the source transactions of the latest version of %s after %s", p.target, line))
+		}
+	}
+	return tx, true
+}
+
+func kindTail(kind string) string { return strings.ReplaceAll(kind, "/", "-") }
+
+
+// ---- the check ---------------------------------------------------------------------------------------------------------------
+
+func TestCheck(t *testing.T) {
+	logrus.SetOutput(io.Discard)
+	logrus.SetLevel(logrus.PanicLevel)
+	r := ev.Start(t, "C09", "exploration")
+	defer r.Finish()
+	r.SetRule("cases = (transaction, document) pairs signed by the harness and submitted to a real dag.State (prevs + signature verifiers) with the real did:nuts ambassador subscribed on it, " +
+		"over generated histories (creations, own-key updates, key removal/demotion, deactivation, controllers, controller key removal/deactivation, controller change, controller chains of depth 1-6, " +
+		"every validator rule, seeded random walks), prevs orderings permuted. Each pair is classified MUST-ACCEPT/MUST-REJECT/UNSPECIFIED from the property text with the harness' shadow of accepted versions; " +
+		"every rejection is compared by before/after snapshots of everything resolvable for all DIDs of the scenario. A case is non-trivial when the pair reached the real code with a decided outcome " +
+		"(and, for updates, the store held at least one accepted version); distinct by (kind, roles of the prevs in order, class, outcome, rejecting layer).")
+	r.Require(r.Pick(100, 1000), r.Pick(40, 150))
+	r.Assume("bbolt stores; one node; transactions arrive one at a time (arrival-order questions belong to C10)")
+	r.Assume("a controller's document is taken as currently accepted when judging whether its key may update a controlled DID (DESIGN C09)")
+	r.Assume("the NATS REPROCESS stream of the ambassador is not part of the path (Start() subscribes on the network first; the harness' event manager then refuses the connection)")
+
+	js := jobs(r.Thorough(), r.Rand("jobs"))
+	done := make([]*scenario, len(js))
+	var wg sync.WaitGroup
+	sem := make(chan struct{}, 12)
+	for i := range js {
+		wg.Add(1)
+		sem <- struct{}{}
+		go func(i int) {
+			defer wg.Done()
+			defer func() { <-sem }()
+			s := newScenario(r, js[i].name, r.Rand("scenario/"+js[i].name))
+			defer s.e.close()
+			done[i] = s
+			defer func() {
+				if x := recover(); x != nil {
+					if a, ok := x.(abort); ok {
+						s.aborted = a.why
+						return
+					}
+					panic(x)
+				}
+			}()
+			js[i].run(s)
+		}(i)
+	}
+	wg.Wait()
+
+	type cell struct{ Accepted, RejectedDAG, RejectedAmbassador int }
+	table := map[string]*cell{}
+	sampled := map[string]bool{}
+	for _, s := range done {
+		if s.aborted != "" {
+			r.Inconclusive(fmt.Sprintf("scenario %s stopped early: set-up step not accepted: %s", s.name, s.aborted))
+		}
+		r.Count("scenarios", 1)
+		for _, c := range s.results {
+			fp := strings.Join([]string{c.kind, c.pattern, c.an.cls.String(), c.out.layer}, "|")
+			decided := c.out.layer == "accepted" || c.out.layer == "dag" || c.out.layer == "ambassador"
+			r.Case(fp, decided && (c.store1 || strings.HasPrefix(c.kind, "create/")))
+			key := c.an.cls.String() + " " + c.kind
+			if table[key] == nil {
+				table[key] = &cell{}
+			}
+			switch c.out.layer {
+			case "accepted":
+				table[key].Accepted++
+				r.Count("accepted", 1)
+			case "dag":
+				table[key].RejectedDAG++
+				r.Count("rejected_by_dag_verifier", 1)
+			case "ambassador":
+				table[key].RejectedAmbassador++
+				r.Count("rejected_by_ambassador", 1)
+			}
+			r.Count("class_"+c.an.cls.String(), 1)
+			if !c.out.accepted && c.out.layer != "panic" {
+				r.Count("snapshots_compared", 1)
+				r.Count("snapshot_entries_compared", c.snapN)
+			}
+			if c.invEval {
+				r.Count("invariant_evaluations_on_accepted", 1)
+			}
+			r.Distinct("kinds", c.kind)
+			r.Distinct("prevs_patterns", c.pattern)
+			for _, u := range c.unspec {
+				r.Unspecified(u)
+			}
+			for _, m := range c.incon {
+				r.Inconclusive(m)
+			}
+			for _, v := range c.viol {
+				r.Violation(v.key, v.what, v.witness)
+			}
+			if !sampled[c.kind] && (strings.Contains(c.kind, "removed-key") || strings.Contains(c.kind, "foreign-key") || strings.Contains(c.kind, "invalid-document") || strings.Contains(c.kind, "controller-key")) {
+				sampled[c.kind] = true
+				r.Sample(map[string]any{"scenario": c.scenario, "kind": c.kind, "prevs": c.pattern, "class": c.an.cls.String(), "reason": c.an.reason, "outcome": c.out.layer, "error": c.out.err, "snapshot_entries": c.snapN})
+			}
+		}
+	}
+	r.Extra("cases_by_class_and_kind", table)
+}
